@@ -219,10 +219,23 @@ def _validate_all(model, params, clause: str, what: str):
     return rep0, rep, ok, srep
 
 
+def _as_given(case, spec):
+    """The specification in the container types the case asks for: megacomplex sequences of datasets as tuples instead of lists
+    (what a python script writes; the yml loader always gives lists)."""
+    if not case.get("mc_tuple"):
+        return spec
+    spec = copy.deepcopy(spec)
+    for d in spec.get("dataset", {}).values():
+        for key in ("megacomplex", "global_megacomplex"):
+            if isinstance(d.get(key), list):
+                d[key] = tuple(d[key])
+    return spec
+
+
 def _model_and_params(case, spec=None, removed=()):
     with warnings.catch_warnings():
         warnings.simplefilter("ignore")
-        model = G.build_model(case["spec"] if spec is None else spec)
+        model = G.build_model(_as_given(case, case["spec"] if spec is None else spec))
         params = G.build_parameters(case["params"], case["free"], removed=removed)
     return model, params
 
@@ -301,7 +314,7 @@ def _referenced_definitions(poss, target):
 
 
 def _tags(case, poss, extra=()):
-    tags = sorted({f"pos:{p['where']}" for p in poss}) + list(extra)
+    tags = sorted({f"pos:{p['where']}" for p in poss}) + list(extra) + (["megacomplex_sequences_as_tuples"] if case.get("mc_tuple") else [])
     nontrivial = any(p["depth"] >= 2 or p["structure"] != "scalar" for p in poss)
     return {"nontrivial": bool(nontrivial), "tags": tags}
 
@@ -1105,13 +1118,13 @@ PROPERTY = Property(
             doc="unmutated model: valid, fill_item of every dataset, one optimize() evaluation, generate_parameters()"),
         Sub("item", prop=prop_item_refs, strategy=lambda: G.models(), budget={"quick": 320, "thorough": 24000},
             doc="nested model-item references (irf, initial_concentration, k_matrix, shape) renamed in turn"),
-        Sub("dsmc", prop=prop_dataset_megacomplex, strategy=lambda: G.models(), budget={"quick": 320, "thorough": 24000},
+        Sub("dsmc", prop=prop_dataset_megacomplex, strategy=lambda: G.models().map(lambda c: {**c, "mc_tuple": c["mut_seed"] % 3 == 0}), budget={"quick": 320, "thorough": 24000},
             doc="dataset -> megacomplex / global_megacomplex renamed in turn"),
         Sub("group", prop=prop_dataset_group, strategy=lambda: G.models(), budget={"quick": 320, "thorough": 24000},
             doc="dataset.group renamed to an undefined dataset group"),
         Sub("param", prop=prop_param_refs, strategy=lambda: G.models(), budget={"quick": 240, "thorough": 20000},
             doc="every parameter reference renamed in turn, every referenced parameter removed in turn"),
-        Sub("uniq", prop=prop_unique_exclusive, strategy=lambda: G.models(), budget={"quick": 240, "thorough": 20000},
+        Sub("uniq", prop=prop_unique_exclusive, strategy=lambda: G.models().map(lambda c: {**c, "mc_tuple": c["mut_seed"] % 2 == 0}), budget={"quick": 240, "thorough": 20000},
             doc="unique megacomplexes duplicated (same label / sibling of the same type), exclusive ones combined"),
         Sub("hist", prop=prop_history, strategy=lambda: G.histories(), budget={"quick": 400, "thorough": 40000},
             doc="one model object + one Parameters object: validate, edit in place (misspell / repair a reference, delete / restore a "
